@@ -111,7 +111,12 @@ var hashes = []hashFn{
 		return uint64(h)
 	}},
 	{"murmur3-32", func(s string) uint64 { return uint64(murmur3(s)) }},
-	{"fnv1a-32-folded-16", func(s string) uint64 { h := fnv.New32a(); h.Write([]byte(s)); v := h.Sum32(); return uint64(v>>16 ^ v&0xffff) }},
+	{"fnv1a-32-folded-16", func(s string) uint64 {
+		h := fnv.New32a()
+		h.Write([]byte(s))
+		v := h.Sum32()
+		return uint64(v>>16 ^ v&0xffff)
+	}},
 	{"packed-low-nibbles", func(s string) uint64 { // what 'key = key<<4 + (c - '0')' style packing computes (with carries)
 		var k uint64
 		for i := 0; i < len(s); i++ {
